@@ -315,8 +315,201 @@ def infer(prog):
     return mv, resolved, report
 
 
+def _normalise_loops(fn):
+    """`for (; cond; step) body` with an abort test in its condition is the simulation loop written as a for: give it the shape the
+    rules know, `while (cond) { body; step; }` (same statements, same ids; the CFG is untouched)"""
+    for x in A.walk(fn["body"]):
+        if x.get("k") == "ForStmt" and not x.get("init") and x.get("cond") is not None and x.get("inc") is not None and "abort" in A.show(x["cond"]):
+            body = x.get("body") or {"k": "CompoundStmt", "c": [], "id": -x["id"], "line": x["line"]}
+            stmts = list(body.get("c", [])) if body.get("k") == "CompoundStmt" else [body]
+            cont = any(y.get("k") == "ContinueStmt" for y in A.walk(body))
+            if cont:
+                continue        # a continue would skip the step in the while form
+            new_body = dict(body) if body.get("k") == "CompoundStmt" else {"k": "CompoundStmt", "id": -x["id"], "line": x["line"], "col": x.get("col", 0), "eline": x.get("eline", x["line"])}
+            new_body["c"] = stmts + [x["inc"]]
+            x["k"] = "WhileStmt"
+            x["body"] = new_body
+            x["was_for"] = True
+            x.pop("inc", None)
+
+
+_ID_OFFSET = 10000000
+
+
+def _splice_helpers(prog):
+    """Calls in main to its own helpers - lambdas defined in main and functions defined in main's file - are replaced, in the AST
+    and in the control-flow graph, by the helper's body with the arguments put in for the parameters.  The rules then see the
+    statements where they are executed, as if they had been written in place.  Only calls that are statements of their own are
+    spliced; helpers the rules know by name, recursive helpers and helpers without a CFG are left alone."""
+    import copy
+    from .indexmap import _rule_vocabulary
+    fn = prog.fn("main")
+    g = fn.get("cfg")
+    if not g:
+        return []
+    done = []
+    lam_cfg = {e["lambda"]: e.get("cfg") for e in fn.get("lambda_cfgs", []) if e.get("cfg")}
+    for round_ in range(6):
+        byid, parent = A.index(fn)
+        # local lambdas: decl -> LambdaExpr node
+        lambdas = {}
+        for x in A.walk(fn["body"]):
+            if x.get("k") == "DeclStmt":
+                for d in x["decls"]:
+                    if d.get("k") == "VarDecl" and "init" in d:
+                        lm = [y for y in A.walk(d["init"]) if y.get("k") == "LambdaExpr" and y.get("body") is not None and y.get("params") is not None]
+                        if lm and lm[0]["id"] in lam_cfg:
+                            lambdas[d["decl"]] = lm[0]
+        lam_body_ids = set()
+        for lm in lambdas.values():
+            lam_body_ids |= {y["id"] for y in A.walk(lm["body"])}
+        target = None
+        for x in A.walk(fn["body"]):
+            if x["id"] in lam_body_ids:
+                continue
+            params = body = cfg = args = name = None
+            if x.get("k") == "CXXOperatorCallExpr" and x.get("op") == "()" and x.get("args"):
+                d = A.declref(x["args"][0])
+                if d is not None and d.get("decl") in lambdas:
+                    lm = lambdas[d["decl"]]
+                    params, body, cfg, args, name = lm["params"], lm["body"], lam_cfg[lm["id"]], x["args"][1:], "lambda " + d["name"]
+            elif x.get("k") == "CallExpr" and x.get("callee_in_root") and x.get("callee_sig"):
+                f = prog.copies.get((x["callee_sig"], fn.get("unit")))
+                short = (x.get("callee") or "").split("::")[-1]
+                if f is not None and f is not fn and f.get("body") and f.get("cfg") and f.get("file") == fn.get("file") and short not in _rule_vocabulary() and \
+                        len(f["params"]) == len(x.get("args", [])):
+                    params, body, cfg, args, name = f["params"], f["body"], f["cfg"], x["args"], x["callee"]
+            if body is None:
+                continue
+            # must be a statement of its own
+            top = x
+            p_ = parent.get(top["id"])
+            while p_ is not None and p_.get("k") in ("ExprWithCleanups", "ImplicitCastExpr", "ParenExpr", "CXXBindTemporaryExpr", "MaterializeTemporaryExpr"):
+                top, p_ = p_, parent.get(p_["id"])
+            if p_ is None or p_.get("k") != "CompoundStmt" or not any(c is top for c in p_.get("c", [])):
+                continue
+            # values returned are not followed; recursion is not followed
+            if any(y.get("k") == "ReturnStmt" and y.get("c") for y in A.walk(body)):
+                continue
+            target = (x, top, p_, params, body, cfg, args, name)
+            break
+        if target is None:
+            break
+        x, top, par, params, body, cfg, args, name = target
+        k = len(done) + 1
+        off = _ID_OFFSET * k
+        pmap = {p_["decl"]: a_ for p_, a_ in zip(params, args)}
+
+        def clone(n, aoff):
+            if isinstance(n, list):
+                return [clone(c, aoff) for c in n]
+            if not isinstance(n, dict):
+                return n
+            if n.get("k") == "DeclRefExpr" and n.get("decl") in pmap and "id" in n:
+                inner = clone_arg(pmap[n["decl"]], n["id"])
+                return {"k": "ParenExpr", "id": n["id"] + off, "line": n.get("line"), "col": n.get("col", 0), "eline": n.get("eline", n.get("line")),
+                        "type": n.get("type"), "ctype": n.get("ctype"), "c": [inner], "param": n.get("name")}
+            out = {}
+            for kk, v in n.items():
+                if kk == "id" and isinstance(v, int):
+                    out[kk] = v + off
+                elif kk in ("line", "eline") and isinstance(v, int):
+                    out["src_" + kk] = v
+                    out[kk] = x.get(kk, x.get("line"))      # positioned where it is executed: at the call
+                elif isinstance(v, (dict, list)):
+                    out[kk] = clone(v, aoff)
+                else:
+                    out[kk] = v
+            return out
+
+        def clone_arg(n, use_id):
+            # a private copy of the argument expression for this use of the parameter (ids unique per use)
+            def c2(m):
+                if isinstance(m, list):
+                    return [c2(c) for c in m]
+                if not isinstance(m, dict):
+                    return m
+                o = {}
+                for kk, v in m.items():
+                    if kk == "id" and isinstance(v, int):
+                        o[kk] = -(abs(v) * 1000 + (use_id % 1000) + off)
+                    elif isinstance(v, (dict, list)):
+                        o[kk] = c2(v)
+                    else:
+                        o[kk] = v
+                return o
+            return c2(n)
+        new_body = clone(body, 0)
+        new_body["spliced_from"] = name
+        lst = par["c"]
+        lst[[i for i, c in enumerate(lst) if c is top][0]] = new_body
+        # control-flow graph
+        blocks = g["blocks"]
+        hit = None
+        for b in blocks:
+            for i, e in enumerate(b["elems"]):
+                if e == x["id"]:
+                    hit = (b, i)
+        if hit is None:
+            done.append(name + " (AST only: call not in CFG)")
+            continue
+        b, i = hit
+        base = max(bb["id"] for bb in blocks) + 1
+        b2_id = base + max(cb["id"] for cb in cfg["blocks"]) + 1
+        b2 = {"id": b2_id, "noreturn": b.get("noreturn"), "elems": b["elems"][i + 1:], "succs": b["succs"]}
+        for kk in ("term", "term_kind", "term_cond", "label", "label_kind"):
+            if kk in b:
+                b2[kk] = b.pop(kk)
+        b["elems"] = b["elems"][:i]
+        b["succs"] = [base + cfg["entry"]]
+        for cb in cfg["blocks"]:
+            if cb["id"] == cfg["exit"]:
+                continue
+            nb = {"id": base + cb["id"], "noreturn": cb.get("noreturn"),
+                  "elems": [(e + off) if isinstance(e, int) else e for e in cb["elems"]],
+                  "succs": [(b2_id if s_ == cfg["exit"] else base + s_) if isinstance(s_, int) else s_ for s_ in cb["succs"]]}
+            for kk in ("term", "term_cond", "label"):
+                if kk in cb:
+                    nb[kk] = cb[kk] + off if isinstance(cb[kk], int) else cb[kk]
+            for kk in ("term_kind", "label_kind"):
+                if kk in cb:
+                    nb[kk] = cb[kk]
+            blocks.append(nb)
+        blocks.append(b2)
+        if g["exit"] == b["id"]:
+            pass
+        done.append(name)
+    # the bodies of the lambdas that were spliced at every call are no longer statements of main on their own
+    if done:
+        for x in A.walk(fn["body"]):
+            if x.get("k") == "LambdaExpr" and x.get("id") in lam_cfg and isinstance(x.get("body"), dict):
+                still_called = False
+                for y in A.walk(fn["body"]):
+                    if y.get("k") == "CXXOperatorCallExpr" and y.get("op") == "()" and y.get("args"):
+                        d = A.declref(y["args"][0])
+                        if d is not None:
+                            for z in A.walk(fn["body"]):
+                                if z.get("k") == "DeclStmt":
+                                    for dd in z["decls"]:
+                                        if dd.get("decl") == d.get("decl") and "init" in dd and any(w is x for w in A.walk(dd["init"])):
+                                            still_called = True
+                if not still_called:
+                    x["body_spliced"] = x["body"]
+                    x["body"] = {"k": "CompoundStmt", "id": x["body"]["id"], "line": x["body"]["line"], "col": 0, "eline": x["body"]["line"], "c": []}
+    return done
+
+
 def canonicalise_main(prog):
     """Rewrite main's facts so that every resolved role carries its role name. -> dict(actual name -> role name)"""
+    spliced = []
+    try:
+        spliced = _splice_helpers(prog)
+    except Exception as e:
+        spliced = ["failed: %r" % (e,)]
+    try:
+        _normalise_loops(prog.fn("main"))
+    except Exception:
+        pass
     try:
         mv, resolved, report = infer(prog)
     except Exception as e:    # role inference must never take a check down by itself
@@ -350,4 +543,73 @@ def canonicalise_main(prog):
                     if isinstance(c, dict) and c.get("decl") in rename:
                         c["name"] = rename[c["decl"]]
     prog.main_roles = dict(renamed=renamed, unresolved=report, resolved={r: mv.vars[d]["name"] for r, d in resolved.items()})
+    prog.main_roles["spliced"] = spliced
+    try:
+        prog.main_roles["named_steps"] = _inline_named_steps(mv, set(resolved.values()))
+    except Exception as e:
+        prog.main_roles["named_steps"] = ["failed: %r" % (e,)]
     return renamed
+
+
+_SCALAR = ("bool", "int", "unsigned int", "long", "unsigned long", "float", "double", "unsigned char", "short", "unsigned short")
+
+
+def _inline_named_steps(mv, role_decls):
+    """A const scalar local of main that is no role, is initialised with a call-free expression and never written again is just a
+    name for that expression (const bool is_outstep = outstep > 0 && step % outstep == 0;): its uses are replaced by the expression,
+    so that conditions and arguments read the same with and without the name."""
+    import copy
+    fn = mv.fn
+    from .indexmap import _count_assignments
+    asg = _count_assignments(fn)
+    cand = {}
+    for decl, v in mv.vars.items():
+        d = v["node"]
+        if decl in role_decls or "init" not in d or asg.get(decl, 0) != 0:
+            continue
+        ty = (d.get("ctype") or "")
+        if not ty.startswith("const ") or ty.replace("const ", "").strip() not in _SCALAR:
+            continue
+        if d["name"] in ROLES:
+            continue
+        init = d["init"]
+        if any(y.get("k") in ("CallExpr", "CXXMemberCallExpr", "CXXOperatorCallExpr", "CXXConstructExpr", "CXXNewExpr", "LambdaExpr") for y in A.walk(init)):
+            continue
+        # only names introduced inside the simulation part (the loop and what follows); set-up locals keep their names
+        cand[decl] = d
+    if not cand:
+        return []
+    loop_line = None
+    for x in A.walk(fn["body"]):
+        if x.get("k") == "WhileStmt" and "abort" in A.show(x.get("cond") or {}):
+            loop_line = x["line"]
+    if loop_line is None:
+        return []
+    cand = {k_: d for k_, d in cand.items() if d.get("line", 0) >= loop_line}
+    done = []
+    for _ in range(3):
+        changed = False
+        for x in A.walk(fn["body"]):
+            for key in ("c", "args", "inits"):
+                lst = x.get(key)
+                if isinstance(lst, list):
+                    for i_, ch in enumerate(lst):
+                        if isinstance(ch, dict) and ch.get("k") == "DeclRefExpr" and ch.get("decl") in cand:
+                            rep = copy.deepcopy(A.strip(cand[ch["decl"]]["init"]))
+                            lst[i_] = {"k": "ParenExpr", "id": ch["id"], "line": ch["line"], "col": ch.get("col", 0), "eline": ch.get("eline", ch["line"]),
+                                       "type": ch.get("type"), "ctype": ch.get("ctype"), "c": [rep], "named": cand[ch["decl"]]["name"]}
+                            changed = True
+                            if cand[ch["decl"]]["name"] not in done:
+                                done.append(cand[ch["decl"]]["name"])
+            for key in ("cond", "then", "else", "init", "body", "inc", "lhs", "rhs", "sub"):
+                ch = x.get(key)
+                if isinstance(ch, dict) and ch.get("k") == "DeclRefExpr" and ch.get("decl") in cand:
+                    rep = copy.deepcopy(A.strip(cand[ch["decl"]]["init"]))
+                    x[key] = {"k": "ParenExpr", "id": ch["id"], "line": ch["line"], "col": ch.get("col", 0), "eline": ch.get("eline", ch["line"]),
+                              "type": ch.get("type"), "ctype": ch.get("ctype"), "c": [rep], "named": cand[ch["decl"]]["name"]}
+                    changed = True
+                    if cand[ch["decl"]]["name"] not in done:
+                        done.append(cand[ch["decl"]]["name"])
+        if not changed:
+            break
+    return done
